@@ -409,11 +409,11 @@ impl FeelType {
       FeelType::Function(params_other, result_other) => {
         if let FeelType::Function(params_self, result_self) = self {
           if params_self.len() == params_other.len() {
+            if !result_self.is_equivalent(result_other) {
+              return false;
+            }
             for (i, param_self) in params_self.iter().enumerate() {
               if !param_self.is_equivalent(&params_other[i]) {
-                return false;
-              }
-              if !result_self.is_equivalent(result_other) {
                 return false;
               }
             }
@@ -478,11 +478,11 @@ impl FeelType {
       FeelType::Function(parameters_other, result_other) => {
         if let FeelType::Function(parameters_self, result_self) = self {
           if parameters_self.len() == parameters_other.len() {
+            if !result_self.is_conformant(result_other) {
+              return false;
+            }
             for (i, parameter_other) in parameters_other.iter().enumerate() {
               if !parameter_other.is_conformant(&parameters_self[i]) {
-                return false;
-              }
-              if !result_self.is_conformant(result_other) {
                 return false;
               }
             }
